@@ -18,10 +18,13 @@ import time
 TLA_CP = "/opt/veriftools/tla/tla2tools.jar:/opt/veriftools/tla/CommunityModules-deps.jar"
 
 # family -> (module, which configs exist)
+LIVE_PROPS = ("C01", "C20", "C04", "C05", "C06", "C07", "C08", "C09", "C10", "C11", "C12", "C19")
+
 FAMILY_MODULE = {
     "join": "JoinLike", "try_join": "JoinLike",
     "race": "Race", "race_ok": "Race",
     "merge": "Merge", "zip": "Zip", "chain": "Chain", "wait_until": "WaitUntil",
+    "future_group": "Groups", "stream_group": "Groups",
 }
 
 # per module: names of the quick / thorough cfg files (without directory)
@@ -31,11 +34,54 @@ MODULE_CFGS = {
                      live_quick="MC_JoinLike_liveq.cfg", live_thorough="MC_JoinLike_live.cfg",
                      mc="MC_JoinLike.tla"),
 }
-for _m in ("Race", "Merge", "Zip", "Chain", "WaitUntil"):
+for _m in ("Race", "Merge", "Zip", "Chain", "WaitUntil", "Groups"):
     MODULE_CFGS[_m] = dict(mc_quick="MC_%s_quick.cfg" % _m, mc_thorough="MC_%s_thorough.cfg" % _m,
                            gen_quick="MC_%s_genq.cfg" % _m, gen_thorough="MC_%s_gen.cfg" % _m,
                            live_quick="MC_%s_liveq.cfg" % _m, live_thorough="MC_%s_live.cfg" % _m,
                            mc="MC_%s.tla" % _m)
+
+
+import hashlib
+
+
+def _spec_hash(SPECS, names):
+    h = hashlib.sha1()
+    for n in sorted(set(names) | {f for f in os.listdir(SPECS) if f.endswith(".tla")}):
+        pth = os.path.join(SPECS, n)
+        if os.path.exists(pth):
+            h.update(n.encode())
+            h.update(open(pth, "rb").read())
+    return h.hexdigest()[:16]
+
+
+def cached_tlc(env, kind, mcmod, cfgfile, tag, **kw):
+    """Run TLC on a specification (no dependence on the code under test) and cache the parsed result under
+    /verif/work/l2cache, keyed by the content of all modules and of the cfg file: model checking the L2
+    specs is a statement about the specification alone, so every check that needs the same module/config
+    shares one run.  Returns (result dict, was_cached)."""
+    SPECS = env["SPECS"]
+    root = os.path.dirname(SPECS)
+    cdir = os.path.join(root, "work", "l2cache")
+    os.makedirs(cdir, exist_ok=True)
+    key = "%s_%s_%s" % (kind, os.path.basename(cfgfile).replace(".cfg", ""), _spec_hash(SPECS, [os.path.basename(cfgfile)]))
+    cpath = os.path.join(cdir, key + ".json")
+    if os.path.exists(cpath) and not os.environ.get("VERIF_NO_L2_CACHE"):
+        try:
+            return json.load(open(cpath)), True
+        except Exception:
+            pass
+    t0 = time.time()
+    rc, out = env["tlc"](mcmod, cfgfile, os.path.join(env["WORK"], "tlc_%s_%d" % (tag, os.getpid())), **kw)
+    gen, dist, ok, cov = parse_tlc(out)
+    res = dict(states=dist, transitions=gen, ok=ok, cov=cov, secs=round(time.time() - t0, 1), out_tail=out[-3000:])
+    if kind == "gen":
+        res["exported"] = [json.loads(unq(line)[4:]) for line in out.splitlines() if line.startswith('"VEC ')]
+    if ok:
+        tmp = cpath + ".%d.tmp" % os.getpid()
+        with open(tmp, "w") as f:
+            json.dump(res, f)
+        os.replace(tmp, cpath)
+    return res, False
 
 
 def parse_tlc(out):
@@ -70,7 +116,7 @@ def containers_for(cfg):
         out = []
         for b in builds:
             for cont in cfg["conts"]:
-                if cont == "vec" and b == "none":
+                if b == "none" and (cont == "vec" or cfg.get("group")):
                     continue
                 if cont == "tup" and n == 0 and fam not in ("join", "try_join", "merge"):
                     continue
@@ -139,7 +185,7 @@ def hist_to_vector(cfg, hist, vid, fam, cont, n):
     return dict(id=vid, fam=fam, cont=cont, n=n, scripts=scripts, cmds=cmds, x=cfg.get("x", -1))
 
 
-SKIP_REAL = {"new", "built", "end", "view"}
+SKIP_REAL = {"new", "built", "end"}
 
 
 def norm_real(lines):
@@ -161,6 +207,30 @@ def first_diff(pred, real):
     return None
 
 
+def prewarm(env, tier="quick"):
+    """Model-check / export every L2 module once (spec-only work, shared by all checks through the cache)."""
+    SPECS = env["SPECS"]
+    jobs = []
+    for mod, cfgs in MODULE_CFGS.items():
+        mcmod = os.path.join(SPECS, cfgs["mc"])
+        jobs.append(("mc", mod, mcmod, os.path.join(SPECS, cfgs["mc_" + tier]), dict(workers=4, xmx="6g", extra=["-coverage", "1"], timeout=7200, deque=False)))
+        jobs.append(("live", mod, mcmod, os.path.join(SPECS, cfgs["live_" + tier]), dict(workers=4, xmx="6g", timeout=7200, deque=False)))
+        jobs.append(("gen", mod, mcmod, os.path.join(SPECS, cfgs["gen_" + tier]), dict(workers=1, xmx="8g", timeout=7200, deque=False)))
+
+    def one(j):
+        kind, mod, mcmod, cfgfile, kw = j
+        r, cached = cached_tlc(env, kind, mcmod, cfgfile, "warm_%s_%s" % (kind, mod), **kw)
+        return kind, mod, r["ok"], r["states"], r["secs"], cached, r.get("out_tail", "")
+
+    bad = []
+    with cf.ThreadPoolExecutor(max_workers=4) as ex:
+        for kind, mod, ok, states, secs, cached, tail in ex.map(one, jobs):
+            env["log"]("  L2 %-9s %-5s states=%-8d %5.1fs %s%s" % (mod, kind, states, secs, "ok" if ok else "ERROR", " (cached)" if cached else ""))
+            if not ok:
+                bad.append((mod, kind, tail))
+    return bad
+
+
 # --------------------------------------------------------------------------- driver
 def run_for_property(prop, tier, seed, plan, env):
     tlc, fcv, WORK, SPECS, log, ToolError = env["tlc"], env["fcv"], env["WORK"], env["SPECS"], env["log"], env["ToolError"]
@@ -178,21 +248,20 @@ def run_for_property(prop, tier, seed, plan, env):
         cfgs = MODULE_CFGS[mod]
         mcmod = os.path.join(SPECS, cfgs["mc"])
         # ---- 1. model checking (safety) --------------------------------------------------
-        t0 = time.time()
         cfgfile = os.path.join(SPECS, cfgs["mc_" + tier])
-        rc, out = tlc(mcmod, cfgfile, os.path.join(WORK, "mc_%s_%s" % (prop, mod)), workers=max(2, ncpu - 2), xmx="12g",
-                      extra=["-coverage", "1"], timeout=7200, deque=False)
-        gen, dist, ok, cov = parse_tlc(out)
+        r, cached = cached_tlc(env, "mc", mcmod, cfgfile, "mc_%s_%s" % (prop, mod), workers=max(2, ncpu - 2), xmx="12g",
+                               extra=["-coverage", "1"], timeout=7200, deque=False)
+        gen, dist, ok, cov = r["transitions"], r["states"], r["ok"], r["cov"]
         res["models"].append(dict(module=mod, config=os.path.basename(cfgfile), kind="safety", states=dist, transitions=gen,
-                                  ok=ok, action_coverage=cov, secs=round(time.time() - t0, 1)))
+                                  ok=ok, action_coverage=cov, secs=r["secs"], reused_from_cache=cached))
         res["states"] += dist
         res["transitions"] += gen
         if not ok:
             # a counterexample in the specification alone is a defect of the model unless the real
             # code reproduces it (DESIGN.md 6): report as tool error with the TLC output
             path = os.path.join(WORK, "tlc_cex_%s_%s.txt" % (prop, mod))
-            open(path, "w").write(out)
-            raise ToolError("TLC reports an error in %s (%s); see %s\n%s" % (mod, os.path.basename(cfgfile), path, out[-1500:]))
+            open(path, "w").write(r["out_tail"])
+            raise ToolError("TLC reports an error in %s (%s); see %s\n%s" % (mod, os.path.basename(cfgfile), path, r["out_tail"][-1500:]))
         # vacuity: every action of the module must have been taken
         dead = [a for a, nn in cov.items() if nn == 0 and a not in ("Init",)]
         if dead:
@@ -200,32 +269,25 @@ def run_for_property(prop, tier, seed, plan, env):
         res["exhaustive"] = True
         # ---- 2. liveness under fairness --------------------------------------------------
         lcfg = cfgs.get("live_" + tier)
-        if lcfg and prop in ("C01", "C20", "C04", "C05", "C06", "C07", "C08", "C09", "C10", "C19"):
-            t0 = time.time()
-            rc, out = tlc(mcmod, os.path.join(SPECS, lcfg), os.path.join(WORK, "live_%s_%s" % (prop, mod)),
-                          workers=max(2, ncpu - 2), xmx="12g", timeout=7200, deque=False)
-            gen, dist, ok, _ = parse_tlc(out)
-            res["models"].append(dict(module=mod, config=lcfg, kind="liveness", states=dist, transitions=gen, ok=ok,
-                                      secs=round(time.time() - t0, 1)))
-            res["states"] += dist
-            res["transitions"] += gen
-            if not ok:
+        if lcfg and prop in LIVE_PROPS:
+            r, cached = cached_tlc(env, "live", mcmod, os.path.join(SPECS, lcfg), "live_%s_%s" % (prop, mod),
+                                   workers=max(2, ncpu - 2), xmx="12g", timeout=7200, deque=False)
+            res["models"].append(dict(module=mod, config=lcfg, kind="liveness", states=r["states"], transitions=r["transitions"],
+                                      ok=r["ok"], secs=r["secs"], reused_from_cache=cached))
+            res["states"] += r["states"]
+            res["transitions"] += r["transitions"]
+            if not r["ok"]:
                 path = os.path.join(WORK, "tlc_live_cex_%s_%s.txt" % (prop, mod))
-                open(path, "w").write(out)
-                raise ToolError("TLC reports a liveness error in %s; see %s\n%s" % (mod, path, out[-1500:]))
+                open(path, "w").write(r["out_tail"])
+                raise ToolError("TLC reports a liveness error in %s; see %s\n%s" % (mod, path, r["out_tail"][-1500:]))
         # ---- 3. export behaviours --------------------------------------------------------
-        t0 = time.time()
         gcfg = os.path.join(SPECS, cfgs["gen_" + tier])
-        rc, out = tlc(mcmod, gcfg, os.path.join(WORK, "gen_%s_%s" % (prop, mod)), workers=1, xmx="8g", timeout=7200, deque=False)
-        gen, dist, ok, _ = parse_tlc(out)
-        if not ok:
-            raise ToolError("TLC export run failed for %s:\n%s" % (mod, out[-1500:]))
-        exported = []
-        for line in out.splitlines():
-            if line.startswith('"VEC '):
-                exported.append(json.loads(unq(line)[4:]))
-        res["models"].append(dict(module=mod, config=os.path.basename(gcfg), kind="export", states=dist, transitions=gen,
-                                  behaviours_exported=len(exported), secs=round(time.time() - t0, 1)))
+        r, cached = cached_tlc(env, "gen", mcmod, gcfg, "gen_%s_%s" % (prop, mod), workers=1, xmx="8g", timeout=7200, deque=False)
+        if not r["ok"]:
+            raise ToolError("TLC export run failed for %s:\n%s" % (mod, r["out_tail"][-1500:]))
+        exported = r["exported"]
+        res["models"].append(dict(module=mod, config=os.path.basename(gcfg), kind="export", states=r["states"], transitions=r["transitions"],
+                                  behaviours_exported=len(exported), secs=r["secs"], reused_from_cache=cached))
         if not exported:
             raise ToolError("no behaviours exported from %s" % mod)
         # ---- 4. replay on the real code --------------------------------------------------
